@@ -20,8 +20,8 @@ from liquid2.ast import Node
 from liquid2.builtin import FilteredExpression
 from liquid2.builtin import Identifier
 from liquid2.builtin import KeywordArgument
+from liquid2.builtin import Literal
 from liquid2.builtin import Path
-from liquid2.builtin import StringLiteral
 from liquid2.builtin import parse_keyword_arguments
 from liquid2.builtin.content import ContentNode
 from liquid2.builtin.output import OutputNode
@@ -223,13 +223,13 @@ class TranslateNode(Node, TranslatableTag):
         if not self.singular_block.block.nodes:
             return ()
 
-        message_context = self.args.get(self.message_context_var)
+        message_context = self._literal_message_context()
 
         if self.plural_block:
-            if message_context and isinstance(message_context.value, StringLiteral):
+            if message_context:
                 funcname = "npgettext"
                 message: MESSAGES = (
-                    (message_context.value.value, "c"),
+                    (message_context, "c"),
                     self.singular_block.text,
                     self.plural_block.text,
                 )
@@ -239,10 +239,10 @@ class TranslateNode(Node, TranslatableTag):
                     self.singular_block.text,
                     self.plural_block.text,
                 )
-        elif message_context and isinstance(message_context.value, StringLiteral):
+        elif message_context:
             funcname = "pgettext"
             message = (
-                (message_context.value.value, "c"),
+                (message_context, "c"),
                 self.singular_block.text,
             )
         else:
@@ -256,6 +256,20 @@ class TranslateNode(Node, TranslatableTag):
                 message=message,
             ),
         )
+
+    def _literal_message_context(self) -> str | None:
+        """The message context this tag is rendered with, if it is a literal.
+
+        As in `resolve_message_context()`, an empty or false context is no context,
+        and one that is not a string is used in its string form.
+        """
+        arg = self.args.get(self.message_context_var)
+        if arg is None or not isinstance(arg.value, Literal):
+            return None
+        value = arg.value.value
+        if not value:
+            return None
+        return value if isinstance(value, str) else str(value)
 
     def _format_message(
         self,
